@@ -2,6 +2,7 @@ import PoseVerif.Proofs.BodyRect
 import PoseVerif.Proofs.HeaderShape
 import PoseVerif.Model.PoseSeq
 import PoseVerif.Props.C01
+import PoseVerif.Model.Normalize
 /-!
 # C12 — every pose reachable through the API stays well-formed
 
@@ -267,5 +268,60 @@ example : PInv natZero 2 1 2 demoPose :=
   ⟨by intro c hc; simp [demoPose] at hc; subst hc; rfl,
    BInv.mkC _ _ (by refine ⟨rfl, ?_⟩; intro fr hfr; simp at hfr; rcases hfr with rfl | rfl <;> exact ⟨rfl, by intro pe hpe; simp at hpe; subst hpe; exact ⟨rfl, by intro pt hpt; simp at hpt; rcases hpt with rfl | rfl <;> rfl⟩⟩)
      (by refine ⟨rfl, ?_⟩; intro fr hfr; simp at hfr; rcases hfr with rfl | rfl <;> exact ⟨rfl, by intro pe hpe; simp at hpe; subst hpe; rfl⟩)⟩
+
+/-! ### the normalisers are instances of `transform` -/
+
+section normalisers
+variable {S : Type} (sc : Scalar S) (isZero : S → Bool)
+theorem RectL_mapIdx {α : Type} {n : Nat} {P : α → Prop} {l : List α} (h : RectL n P l) (f : Nat → α → α) (hf : ∀ i x, P x → P (f i x)) : RectL n P (l.mapIdx f) := by
+  refine ⟨by rw [List.length_mapIdx]; exact h.1, ?_⟩
+  intro x hx
+  obtain ⟨i, hi, rfl⟩ := List.mem_iff_getElem.mp hx
+  simp only [List.getElem_mapIdx]
+  exact hf _ _ (h.2 _ (List.getElem_mem _))
+
+/-- a point-wise recomputation that keeps each point's number of coordinates keeps the shape -/
+theorem shapePreserving_pointwise (g : List S → List S) (hg : ∀ pt, (g pt).length = pt.length) : ShapePreserving fun d : A4 S => d.map (List.map (List.map g)) := by
+  intro d F P N D h
+  exact h.map _ fun fr hfr => hfr.map _ fun pe hpe => hpe.map _ fun pt hpt => by rw [hg]; exact hpt
+
+/-- … also when the recomputation depends on the point's index -/
+theorem shapePreserving_indexed (g : Nat → List S → List S) (hg : ∀ n pt, (g n pt).length = pt.length) : ShapePreserving fun d : A4 S => d.map (List.map fun pe => pe.mapIdx g) := by
+  intro d F P N D h
+  exact h.map _ fun fr hfr => hfr.map _ fun pe hpe => RectL_mapIdx hpe g fun n pt hpt => by rw [hg]; exact hpt
+
+/-- **`Pose.normalize` is a shape-preserving recomputation of the coordinates**: whenever it returns, its result is what the `transform` operation returns -/
+theorem normalize_is_transform [Inhabited S] (p1 p2 : Nat) (s : S) (p : PPose S) (b' : PBody S) (c : List S) (m : S)
+    (h : normalizeBody sc isZero p1 p2 s p.body = some (b', c, m)) :
+    ∃ T, ShapePreserving T ∧ (POp.transform T).apply sc isZero p = some ⟨p.comps, b'⟩ := by
+  unfold normalizeBody at h
+  simp only [Option.bind_eq_bind, Option.bind_eq_some_iff, Option.some.injEq, Prod.mk.injEq] at h
+  obtain ⟨center, _, meanDist, _, rfl, _, _⟩ := h
+  exact ⟨_, shapePreserving_pointwise (normalizePoint sc center (sc.div s meanDist)) (fun pt => by simp [normalizePoint]), rfl⟩
+
+theorem normalizeDistribution_is_transform [Inhabited S] (allPoints : Bool) (p : PPose S) :
+    ∃ T, ShapePreserving T ∧ (POp.transform T).apply sc isZero p = some ⟨p.comps, (normalizeDistribution sc isZero allPoints p.body).1⟩ :=
+  ⟨_, shapePreserving_indexed _ (fun n pt => by simp), rfl⟩
+
+theorem unnormalizeDistribution_is_transform [Inhabited S] (mu sd : List (List (Option S))) (p : PPose S) :
+    ∃ T, ShapePreserving T ∧ (POp.transform T).apply sc isZero p = some ⟨p.comps, unnormalizeDistribution sc isZero mu sd p.body⟩ :=
+  ⟨_, shapePreserving_indexed _ (fun n pt => by simp), rfl⟩
+
+/-- hence the normalisers keep a pose well-formed: same shape, confidences and missing pattern untouched, still serialisable -/
+theorem normalize_wf [Inhabited S] (p1 p2 : Nat) (s : S) (p : PPose S) (b' : PBody S) (c : List S) (m : S) (hwf : WF isZero p)
+    (h : normalizeBody sc isZero p1 p2 s p.body = some (b', c, m)) : WF isZero ⟨p.comps, b'⟩ := by
+  obtain ⟨T, hT, happ⟩ := normalize_is_transform sc isZero p1 p2 s p b' c m h
+  exact step_inv sc isZero (.transform T) hwf hT happ
+
+theorem normalizeDistribution_wf [Inhabited S] (allPoints : Bool) (p : PPose S) (hwf : WF isZero p) :
+    WF isZero ⟨p.comps, (normalizeDistribution sc isZero allPoints p.body).1⟩ := by
+  obtain ⟨T, hT, happ⟩ := normalizeDistribution_is_transform sc isZero allPoints p
+  exact step_inv sc isZero (.transform T) hwf hT happ
+
+theorem unnormalizeDistribution_wf [Inhabited S] (mu sd : List (List (Option S))) (p : PPose S) (hwf : WF isZero p) :
+    WF isZero ⟨p.comps, unnormalizeDistribution sc isZero mu sd p.body⟩ := by
+  obtain ⟨T, hT, happ⟩ := unnormalizeDistribution_is_transform sc isZero mu sd p
+  exact step_inv sc isZero (.transform T) hwf hT happ
+end normalisers
 
 end PoseVerif.Props.C12
